@@ -394,7 +394,14 @@ impl Search {
         let moves = self.board.get_all_moves();
         let mut total_legal_moves = 0;
 
-        let mut best_ply = moves[0];
+        // A side whose pieces are all blocked has no pseudo-legal move at all: mate or stalemate
+        let Some(&first_ply) = moves.first() else {
+            if self.board.is_in_check(self.board.current_turn) {
+                return Score::MIN + i16::from(self.info.depth);
+            }
+            return 0;
+        };
+        let mut best_ply = first_ply;
         let mut pvs = false;
         let killers = self.info.killers[usize::from(self.info.depth)];
         for mv in MoveOrderer::new(&moves, self.board.zkey, &killers) {
